@@ -304,7 +304,7 @@ def units(tier, seed):
         n = len(netlist(name))
         for a, b in nets.chunks(n, cs):
             us.append(("presets", name, a, b, tier, seed))
-    for name, cs in (("U332", 200), ("F", 4), ("BIG", 1)):
+    for name, cs in (("ONE", 2), ("U332", 200), ("F", 4), ("BIG", 1)):
         n = len(netlist(name))
         for a, b in nets.chunks(n, cs):
             us.append(("hyper", name, a, b, tier, seed))
@@ -478,8 +478,6 @@ def work_hyper(netsl, tier, seed, res):
     for net in netsl:
         tag, inputs, output, sd = net
         n = len(inputs)
-        if n < 2:
-            continue
         for m in EXACT_METHODS:
             def call(m=m):
                 random.seed(seed)
